@@ -6,8 +6,8 @@ import ast
 
 from ..cfg import cfg_of
 from ..model import AnalysisError, ClassInfo, call_name, calls_in, dotted, norm, walk_no_nested
-from .. import fde, rules
-from . import _items
+from .. import fde, rules, summary
+from . import _codec, _items
 from .c01 import NUMERIC, VAR_ATTRS
 
 CONCRETE = ["Array", "Binary", "Boolean", "String", "JIS8", "I1", "I2", "I4", "I8", "F4", "F8", "U1", "U2", "U4", "U8"]
@@ -61,30 +61,59 @@ def _type_table(repo, f, expr, depth=0):
     return None
 
 
+def codes_inv(codes, name):
+    return next(fc for fc, c in codes.items() if c == name)
+
+
 def check_dynamic(ctx, rule="C02.T1"):
     repo = ctx.repo
     f = repo.method("Dynamic", "decode", inherited=False)
     ctx.touch(f)
     q = f.qualname
-    cfg = cfg_of(f.node)
-    table = None
-    tvar = None
-    for st in rules.func_stmts(f.node):
-        if isinstance(st, ast.Assign) and isinstance(st.targets[0], ast.Name):
-            t = _type_table(repo, f, st.value)
-            if t:
-                table, tvar = t, st.targets[0].id
-    if table is None:
-        # a module/class level table referenced by name in the membership test
-        for n in walk_no_nested(f.node):
-            if isinstance(n, ast.Compare) and isinstance(n.ops[0], (ast.In, ast.NotIn)) and isinstance(n.comparators[0], ast.Name):
-                t = _type_table(repo, f, n.comparators[0])
-                if t:
-                    table, tvar = t, n.comparators[0].id
-    ctx.require(table is not None, f"{q}: format-code table not found - unknown dispatch idiom")
+    params = [a.arg for a in f.node.args.args[1:]]
+    ctx.require(len(params) >= 2, f"{q}: decode(data, start) expected")
+    codes = {repo.const(c, "format_code"): c for c in CONCRETE}
+
+    def evaluate(fc, types):
+        """Outcome of decode for one received format code: exact evaluation over the finite domain of the 6-bit code."""
+        seen = []
+
+        def hook(args):
+            seen.append(args)
+            return ["<cursor>", fc, "<length>"]
+
+        ev = fde.FDE(repo, f, {"self.types": types, "self.count": "<count>"}, env={params[0]: "<data>", params[1]: "<start>"}, inline=True, hooks={"self.decode_item_header": hook})
+        try:
+            tr = ev.run()
+        except fde.Undecided as exc:
+            raise AnalysisError(f"{q}: cannot evaluate for format code {fc}: {exc}")
+        return tr, seen
+
+    outcomes = {fc: evaluate(fc, []) for fc in range(64)}
+    table = {codes[fc] for fc, (tr, _) in outcomes.items() if fc in codes and not tr.raised and tr.assigned.get("self.value") is not None}
     missing = [c for c in CONCRETE if c not in table]
-    ctx.ob(rule, q, not missing, f"the format-code table covers all {len(CONCRETE)} concrete item classes" if not missing else
-           f"the format-code table lacks {missing}: a Dynamic that may hold such an item encodes it but cannot decode its own bytes (ValueError: Unsupported format)", key="table", where=f.where, table=sorted(table))
+    ctx.ob(rule, q, not missing, f"all {len(CONCRETE)} concrete item classes are decodable by their format code" if not missing else
+           f"no class is instantiated for the format codes of {missing}: a Dynamic that may hold such an item encodes it but cannot decode its own bytes (ValueError: Unsupported format)", key="table", where=f.where, table=sorted(table))
+    wrong = {fc: tr.assigned.get("self.value") for fc, (tr, _) in outcomes.items() if fc in codes and not tr.raised and not (isinstance(tr.assigned.get("self.value"), tuple) and tr.assigned["self.value"][1] == codes[fc])}
+    wrong = {fc: v for fc, v in wrong.items() if v is not None}
+    ctx.ob(rule, q, not wrong, "the class is selected by the received format code" if not wrong else f"format codes decoded by the wrong class: { {oct(fc): (codes[fc], v[1] if isinstance(v, tuple) else v) for fc, v in wrong.items()} }", key="select", where=f.where)
+    lst = outcomes[codes_inv(codes, "Array")][0].assigned.get("self.value")
+    ok = isinstance(lst, tuple) and lst[:3] == ("new", "Array", (fde.ClsTok("ANYVALUE"),))
+    ctx.ob(rule, q, ok, "a list item decodes as Array(ANYVALUE), i.e. arbitrarily nested" if ok else f"a list item is decoded as {lst}, not Array(ANYVALUE)", key="nested", where=f.where)
+    bad = {codes[fc]: tr.assigned.get("self.value") for fc, (tr, _) in outcomes.items() if fc in codes and codes[fc] != "Array" and not tr.raised and not (isinstance(tr.assigned.get("self.value"), tuple) and tr.assigned["self.value"][2:] == ((), (("count", "<count>"),)))}
+    ctx.ob(rule, q, not bad, "other items are decoded by a fresh instance of the table's class with this item's count" if not bad else f"scalar items are not decoded by typ(count=self.count): {bad}", key="scalar", where=f.where)
+    rets = {repr(tr.returned) for fc, (tr, _) in outcomes.items() if not tr.raised}
+    ok = rets == {repr(("call", "self.value.decode", ["<data>", "<start>"]))}
+    ctx.ob(rule, q, ok, "the chosen class decodes from the item's own start and its cursor is returned" if ok else f"returns {sorted(rets)}", key="restart", where=f.where)
+    peeks = {repr(seen) for _, (tr, seen) in outcomes.items()}
+    ok = peeks == {repr([["<data>", "<start>"]])}
+    ctx.ob(rule, q, ok, "the format code is read from the header at `start`" if ok else f"the format code is not read by one decode_item_header(data, start): {sorted(peeks)[:2]}", key="peek-header", where=f.where)
+    refused = sorted(fc for fc, (tr, _) in outcomes.items() if tr.raised)
+    want = sorted(fc for fc in range(64) if fc not in codes)
+    only_u1 = {fc for fc in range(64) if not evaluate(fc, [fde.ClsTok("U1")])[0].raised}
+    ok = refused == want and only_u1 == {repo.const("U1", "format_code")}
+    ctx.ob(rule, q, ok, "the only refusal is an unsupported or disallowed format code" if ok else
+           f"Dynamic.decode refuses format codes {[oct(x) for x in refused if x not in want]} of defined items / accepts undefined {[oct(x) for x in want if x not in refused]}; a Dynamic([U1]) accepts {sorted(oct(x) for x in only_u1)}: valid items of an allowed format are rejected or disallowed ones accepted", key="only-refusal", where=f.where)
     # an unrestricted Dynamic supports every entry
     ts = repo.cls("Dynamic").methods.get("__type_supported") or repo.cls("Dynamic").methods.get("_Dynamic__type_supported")
     ctx.require(ts is not None, "Dynamic.__type_supported not found")
@@ -115,34 +144,6 @@ def check_dynamic(ctx, rule="C02.T1"):
         if r is not (c == "U1"):
             restricted_ok = False
     ctx.ob(rule, ts.qualname, restricted_ok, "a restricted Dynamic supports exactly its listed types" if restricted_ok else "a restricted Dynamic does not support exactly its listed types", key="restricted", where=ts.where)
-    # refusal only for unsupported format
-    raises = [n for n in cfg.real_nodes() if isinstance(n.ast, ast.Raise)]
-    bad = []
-    for r in raises:
-        conds = [norm(t) for t, v in cfg.dominating_conditions(r) if v]
-        if not any(("not in " + (tvar or "")) in c and "type_supported" in c for c in conds):
-            bad.append((r, conds))
-    ok = len(raises) >= 1 and not bad
-    ctx.ob(rule, q, ok, "the only refusal is an unsupported or disallowed format code" if ok else
-           f"Dynamic.decode also refuses under {bad[0][1] if bad else 'no condition'}: valid items of an allowed format are rejected (e.g. a byte length compared with an element count)", key="only-refusal", where=f.where)
-    # Array => Array(ANYVALUE); others typ(count=self.count); restart at start
-    arr = [n for n in cfg.real_nodes() if isinstance(n.ast, ast.Assign) and norm(n.ast.targets[0]) == "self.value" and norm(n.ast.value) == "Array(ANYVALUE)"]
-    ok = len(arr) == 1 and any(norm(t) in ("typ == Array", "typ is Array") and v for t, v in cfg.dominating_conditions(arr[0]))
-    ctx.ob(rule, q, ok, "a list item decodes as Array(ANYVALUE), i.e. arbitrarily nested" if ok else "a list item is not decoded as Array(ANYVALUE)", key="nested", where=f.where)
-    oth = [n for n in cfg.real_nodes() if isinstance(n.ast, ast.Assign) and norm(n.ast.targets[0]) == "self.value" and norm(n.ast.value) == "typ(count=self.count)"]
-    ok = len(oth) == 1
-    ctx.ob(rule, q, ok, "other items are decoded by a fresh instance of the table's class" if ok else "scalar items are not decoded by typ(count=self.count)", key="scalar", where=f.where)
-    params = [a.arg for a in f.node.args.args[1:]]
-    rets = [n for n in cfg.real_nodes() if isinstance(n.ast, ast.Return)]
-    ok = len(rets) == 1 and norm(rets[0].ast.value) == f"self.value.decode({params[0]}, {params[1]})"
-    ctx.ob(rule, q, ok, "the chosen class decodes from the item's own start and its cursor is returned" if ok else f"returns `{norm(rets[0].ast.value) if rets else None}`", key="restart", where=f.where)
-    hdr = [c for c in calls_in(f.node) if call_name(c) == "self.decode_item_header"]
-    ok = len(hdr) == 1 and [norm(a) for a in hdr[0].args] == params
-    ctx.ob(rule, q, ok, "the format code is read from the header at `start`" if ok else "the format code is not read by decode_item_header(data, start)", key="peek-header", where=f.where)
-    # typ selection uses the decoded format code
-    sel = [n for n in cfg.real_nodes() if isinstance(n.ast, ast.Assign) and norm(n.ast.targets[0]) == "typ"]
-    ok = len(sel) == 1 and norm(sel[0].ast.value) == f"{tvar}[format_code]"
-    ctx.ob(rule, q, ok, "the class is selected by the received format code" if ok else "the class is not selected as table[format_code]", key="select", where=f.where)
     # ANYVALUE
     init = repo.method("ANYVALUE", "__init__", inherited=False)
     ctx.touch(init)
@@ -160,28 +161,54 @@ def check_dynamic(ctx, rule="C02.T1"):
     ctx.ob(rule, enc.qualname, ok, "re-encoding is done by the decoded item (canonical form by C01.B1)" if ok else "Dynamic.encode does not delegate to the held item", where=enc.where)
 
 
+REF_SET = {
+    "_set_list": """
+def _set_list(self, value):
+    if 0 <= self.count < len(value):
+        raise ValueError()
+    new_list = []
+    for item in value:
+        item = self._base_type(item)
+        if item < self._min or item > self._max:
+            raise ValueError()
+        new_list.append(item)
+    self.value = new_list
+""",
+    "_set_bytearray": """
+def _set_bytearray(self, value):
+    if 0 <= self.count < len(value):
+        raise ValueError()
+    new_list = []
+    for item in value:
+        if item < self._min or item > self._max:
+            raise ValueError()
+        new_list.append(item)
+    self.value = new_list
+""",
+}
+
+
 def check_revalidation(ctx):
     repo = ctx.repo
-    for mname in ("set", "_set_list", "_set_bytearray"):
+    for mname, ref in REF_SET.items():
         f = repo.method("BaseNumber", mname, inherited=False)
-        ctx.touch(f)
-        cfg = cfg_of(f.node)
-        raises = [n for n in cfg.real_nodes() if isinstance(n.ast, ast.Raise) and "Invalid value" in norm(n.ast)]
-        range_raises = []
-        for r in raises:
-            for t, v in cfg.dominating_conditions(r):
-                if "self._min" in norm(t) or "self._max" in norm(t):
-                    range_raises.append((r, t, v))
-        ok = len(range_raises) >= 1
-        ctx.ob("C02.P1", f.qualname, ok, "values are re-validated against the class range" if ok else "no range re-validation found", key="present", where=f.where)
-        for r, t, v in range_raises:
-            good = False
-            if isinstance(t, ast.BoolOp) and isinstance(t.op, ast.Or) and len(t.values) == 2 and v:
-                a, b = t.values
-                good = (isinstance(a, ast.Compare) and isinstance(a.ops[0], ast.Lt) and norm(a.comparators[0]) == "self._min"
-                        and isinstance(b, ast.Compare) and isinstance(b.ops[0], ast.Gt) and norm(b.comparators[0]) == "self._max" and norm(a.left) == norm(b.left))
-            ctx.ob("C02.P1", f.qualname, good, "rejected exactly when x < _min or x > _max (the boundary values themselves are valid encodings)" if good else
-                   f"rejection predicate `{norm(t)}` is not `x < _min or x > _max`: the boundary encodings (0xFF.., 0x80.., largest finite float) are refused or out-of-range values pass", key="predicate " + norm(t), where=f.where)
+        _codec.agree(ctx, "C02.P1", f, ref, {
+            "raises": "an element is rejected exactly when x < _min or x > _max (the boundary values themselves are valid encodings); too many elements are refused",
+            "stores": "every accepted element is stored, in order",
+        }, key_prefix="predicate ")
+    # scalar path of set(): the same predicate on the converted value
+    f = repo.method("BaseNumber", "set", inherited=False)
+    ctx.touch(f)
+    paths = _codec.paths_of(ctx, f, keep={"_set_list", "_set_bytearray"})
+    p = f.node.args.args[1].arg
+    x = f"self._base_type({p})"
+    lo, hi = (f"{x} < self._min", False), (f"self._max < {x}", False)
+    rejecting = [q for q in paths if q.kind == "raise" and any(t.startswith("ALL[") and "self._min" in t and "self._max" in t for t, _ in q.conds)]
+    storing = [q for q in paths if q.kind != "raise" and any(e[0] == "store" and e[1] == "self.value" and e[2] == f"[{x}]" for e, _ in summary.flat_effects(q.effects))]
+    ok = len(rejecting) == 1 and (f"ALL[-{x} < self._min;-self._max < {x}]", False) in rejecting[0].conds and len(storing) == 1 and lo in storing[0].conds and hi in storing[0].conds
+    ctx.ob("C02.P1", f.qualname, ok, "a scalar is rejected exactly when x < _min or x > _max and stored otherwise" if ok else
+           f"the scalar path of set() does not reject exactly `x < _min or x > _max`: refusing paths {[q.conds for q in rejecting]}, storing paths {[q.conds for q in storing]}: the boundary encodings (0xFF.., 0x80.., largest finite float) are refused or out-of-range values pass",
+           key="predicate scalar", where=f.where)
     dec = repo.method("BaseNumber", "decode", inherited=False)
     ok = any(call_name(c) == "self.set" for c in calls_in(dec.node))
     ctx.ob("C02.P1", dec.qualname, ok, "decoded numbers are stored through the validating set()" if ok else "decode bypasses set()", where=dec.where)
